@@ -150,7 +150,12 @@ MemberCall(recv, m, path, viaName, args, st, cfg) ==
       tc == IF hasPath /\ ~IsStaticPath(path) THEN [e |-> first.e, assign |-> <<>>, args |-> <<>>, st |-> tr.st]
             ELSE IF hasPath THEN Hoist(path, FALSE, tr.st, cfg)
             ELSE Hoist(MemberE(tr.e, m), FALSE, tr.st, cfg)
-      ca == CallArgs(args, 1, viaName = "apply", tc.st, cfg, NoAcc)
+      \* apply(this, argsArray, surplus..): the surplus is extracted in place but is no hook operand
+      ca == IF viaName = "apply" /\ Len(args) > 1
+            THEN LET a1 == CallArgs(SubSeq(args, 1, 1), 1, TRUE, tc.st, cfg, NoAcc)
+                     a2 == CallArgs(SubSeq(args, 2, Len(args)), 1, TRUE, a1.st, cfg, NoAcc)
+                 IN [args |-> a1.args \o a2.args, assign |-> a1.assign \o a2.assign, hook |-> a1.hook, st |-> a2.st]
+            ELSE CallArgs(args, 1, viaName = "apply", tc.st, cfg, NoAcc)
       call == CallE(MemberE(tc.e, viaName), <<Arg(tr.e, FALSE)>> \o ca.args)
       hookArgs == (IF hasPath /\ ~IsStaticPath(path) THEN first.args ELSE tc.args) \o <<Arg(tr.e, FALSE)>> \o ca.hook
       assigns == first.assign \o tr.assign \o tc.assign \o ca.assign
@@ -214,10 +219,14 @@ ToDdCall(call, st, cfg) ==
 IsOpt(n) == n.t = "OptionalChainingExpression"
 RECURSIVE OcVisit(_, _, _), OcLink(_, _, _)
 
+IsProtoMember(o) == o.t = "MemberExpression" /\ o.c[2].t = "Identifier" /\ o.c[2].v = "prototype"
+ObjIsProto(o) == IsProtoMember(o) \/ (IsOpt(o) /\ IsProtoMember(o.c[1]))
+
 OcPattern(n, cfg) ==
   /\ IsOpt(n) /\ ~OptFlag(n) /\ n.c[1].t = "CallExpression"
   /\ IsOpt(n.c[1].c[1]) /\ n.c[1].c[1].c[1].t = "MemberExpression"
   /\ n.c[1].c[1].c[1].c[2].t = "Identifier" /\ HasM(cfg, n.c[1].c[1].c[1].c[2].v)
+  /\ ~ObjIsProto(n.c[1].c[1].c[1].c[1])                       \* X?.prototype.m(..) is never hooked, so never lowered
 
 OcVisit(n, oc, cfg) ==
   IF ~IsOpt(n) THEN [e |-> n, oc |-> oc]                       \* the head of the chain: not a link
